@@ -29,6 +29,7 @@ var blockTypes = map[string]tinfo{
 	"int32": {"int32", 32, true}, "uint32": {"uint32", 32, false},
 	"myInt8": {"myInt8", 8, true}, "myUint8": {"myUint8", 8, false},
 	"myInt16": {"myInt16", 16, true}, "myUint16": {"myUint16", 16, false},
+	"methInt8": {"methInt8", 8, true}, // named type whose own methods contradict the operators
 }
 
 // ntCache holds ntPoints() of every block type (immutable after init).
@@ -91,6 +92,8 @@ func RunBlock(c Block) pbt.Outcome {
 		return blockT[myInt16](c, ti)
 	case "myUint16":
 		return blockT[myUint16](c, ti)
+	case "methInt8":
+		return blockT[methInt8](c, ti)
 	}
 	return pbt.Outcome{Skipped: true, Labels: []string{"malformed"}}
 }
@@ -399,20 +402,20 @@ func enumBlocks(types, fns []string, step int64, keep func(ti tinfo, lo, hi int6
 var specSingle = pbt.Register(&pbt.Spec[Block]{
 	Property: "C20", Name: "C20.single",
 	Rule: "exhaustive: Abs, Digits10, DigitsSign10, Clamp01 and 1-argument Min/Max/Sum/Product on every value of int8, uint8, int16, uint16 and of " +
-		"named types myInt8, myUint8, myInt16, myUint16 (blocks of 4096 values); references: strconv decimal string length, exact int64 arithmetic; " +
+		"named types myInt8, myUint8, myInt16, myUint16 and methInt8 (an int8 with IsZero/String/Less/Compare/Abs methods that contradict the operators) (blocks of 4096 values); references: strconv decimal string length, exact int64 arithmetic; " +
 		"Abs of the signed minimum is excluded (not representable); " + ntRule,
 	Enum: func(shard, shards int, tier string, yield func(Block) bool) {
-		enumBlocks([]string{"int8", "uint8", "int16", "uint16", "myInt8", "myUint8", "myInt16", "myUint16"}, fns1, 4096, nil, shard, shards, yield)
+		enumBlocks([]string{"int8", "uint8", "int16", "uint16", "myInt8", "myUint8", "myInt16", "myUint16", "methInt8"}, fns1, 4096, nil, shard, shards, yield)
 	},
 	Run: RunBlock, Exhaustive: true,
 })
 
 var specPairs = pbt.Register(&pbt.Spec[Block]{
 	Property: "C20", Name: "C20.pairs",
-	Rule: "exhaustive: 2-argument Min, Max, Compare, Less, Sum, Product on every pair of values of int8, uint8, myInt8, myUint8 " +
+	Rule: "exhaustive: 2-argument Min, Max, Compare, Less, Sum, Product on every pair of values of int8, uint8, myInt8, myUint8, methInt8 " +
 		"(a block = 32 first arguments x all 256 second arguments); references: exact int64 arithmetic reduced modulo 2^8; " + ntRule,
 	Enum: func(shard, shards int, tier string, yield func(Block) bool) {
-		enumBlocks([]string{"int8", "uint8", "myInt8", "myUint8"}, fns2, 32, nil, shard, shards, yield)
+		enumBlocks([]string{"int8", "uint8", "myInt8", "myUint8", "methInt8"}, fns2, 32, nil, shard, shards, yield)
 	},
 	Run: RunBlock, Exhaustive: true,
 })
